@@ -21,7 +21,10 @@ pub const UNREACHABLE_LOCALITY: u8 = 0xff;
 
 impl SLIT {
     pub fn new(oem_id: [u8; 6], oem_table_id: [u8; 8], oem_revision: u32, localities: u32) -> Self {
-        assert!(localities < 0x1_0000, "SLIT locality count does not fit the table length");
+        assert!(
+            localities < 0x1_0000,
+            "SLIT locality count does not fit the table length"
+        );
         let entry_count = localities * localities;
         let length: u32 =
             TableHeader::len() as u32 + entry_count + core::mem::size_of::<u64>() as u32;
